@@ -227,11 +227,33 @@ func (s *JavaIdentifierListener) EnterExpression(ctx *parser.ExpressionContext) 
 		statementCtx := ctx.GetParent().(*parser.StatementContext)
 		firstChild := statementCtx.GetChild(0).(antlr.ParseTree).GetText()
 		if strings.ToLower(firstChild) == "return" {
-			if strings.Contains(ctx.GetText(), "null") {
+			if hasNullLiteral(ctx) {
 				currentMethod.IsReturnNull = true
 			}
 		}
 	}
+}
+
+// hasNullLiteral reports whether a null literal occurs in the returned expression, other than
+// as an operand of == or != (`return x == null;` returns a boolean). The text "null" inside a
+// string literal or an identifier (`return nullable;`) is not a null literal.
+func hasNullLiteral(tree antlr.Tree) bool {
+	if literal, ok := tree.(*parser.LiteralContext); ok {
+		if literal.NULL_LITERAL() == nil {
+			return false
+		}
+		// literal -> primary -> expression -> the expression it is an operand of
+		if operation, ok := literal.GetParent().GetParent().GetParent().(*parser.ExpressionContext); ok {
+			return operation.EQUAL() == nil && operation.NOTEQUAL() == nil
+		}
+		return true
+	}
+	for _, child := range tree.GetChildren() {
+		if hasNullLiteral(child) {
+			return true
+		}
+	}
+	return false
 }
 
 func (s *JavaIdentifierListener) GetNodes() []core_domain.CodeDataStruct {
